@@ -967,11 +967,31 @@ Proof. vm_compute. repeat split; reflexivity. Qed.
 
 (** * Part D: saturating arithmetic ([Saturating<u64>], [Saturating<u128>]) *)
 
+From OxiVerif Require Num.NatBase.
+
 Section Saturating.
 Variable w : N.
 Hypothesis Hw : (2 <= w)%N.
 
 Let MAX := sat_max w.
+
+(** [<<] of [Saturating<uW>]: the product if it fits, the marker otherwise *)
+Definition sat_fit (x : N) : N := if (x <? 2 ^ w)%N then x else sat_max w.
+
+Lemma sat_shl_spec : forall x k, (x < 2 ^ w)%N ->
+  n_shl (sat_ops w) x k = sat_fit (x * 2 ^ N.of_nat k)%N.
+Proof.
+  intros x k Hx. simpl n_shl. unfold sat_fit. destruct (N.eqb_spec x 0) as [->|Hnz].
+  - rewrite N.mul_0_l. pose proof (pow2_pos w). destruct (N.ltb_spec 0 (2 ^ w)); [reflexivity | lia].
+  - assert (Hs : (N.size x <= w)%N) by (apply NatBase.size_le_iff; exact Hx).
+    pose proof (NatBase.size_mul_p2 x (N.of_nat k) Hnz) as Sm.
+    pose proof (NatBase.size_le_iff (x * 2 ^ N.of_nat k) w) as Hiff.
+    destruct (N.ltb_spec (w - N.size x) (N.of_nat k)) as [Hov|Hfit];
+      destruct (N.ltb_spec (x * 2 ^ N.of_nat k) (2 ^ w)) as [Hlt|Hge]; try reflexivity.
+    + apply Hiff in Hlt. lia.
+    + apply N.mod_small. exact Hlt.
+    + exfalso. assert (Hc : (N.size (x * 2 ^ N.of_nat k) <= w)%N) by lia. apply Hiff in Hc. lia.
+Qed.
 
 Lemma pow_w_ge4 : (4 <= 2 ^ w)%N.
 Proof. change 4%N with (2 ^ 2)%N. apply N.pow_le_mono_r; [discriminate | exact Hw]. Qed.
@@ -1070,9 +1090,13 @@ Proof. unfold K. pose proof (pow2_pos (N.of_nat (vars - n))). lia. Qed.
 (** [1 << vars] in the saturating type *)
 Lemma shl_one : n_shl (sat_ops w) 1%N vars = saturate w vars (2 ^ N.of_nat vars)%N.
 Proof.
-  simpl n_shl. unfold saturate. destruct (N.ltb_spec (N.of_nat vars) w) as [Hlt|Hge].
-  - rewrite N.mul_1_l. apply N.mod_small. apply N.pow_lt_mono_r; [reflexivity | exact Hlt].
-  - pose proof (pow2_pos (N.of_nat vars)).
+  pose proof pow_w_ge4 as H4. rewrite sat_shl_spec by lia. unfold sat_fit, saturate. rewrite N.mul_1_l.
+  destruct (N.ltb_spec (N.of_nat vars) w) as [Hlt|Hge].
+  - assert (2 ^ N.of_nat vars < 2 ^ w)%N by (apply N.pow_lt_mono_r; [reflexivity | exact Hlt]).
+    destruct (N.ltb_spec (2 ^ N.of_nat vars) (2 ^ w)); [reflexivity | lia].
+  - assert (2 ^ w <= 2 ^ N.of_nat vars)%N by (apply N.pow_le_mono_r; [discriminate | exact Hge]).
+    pose proof (pow2_pos (N.of_nat vars)).
+    destruct (N.ltb_spec (2 ^ N.of_nat vars) (2 ^ w)); [lia|].
     destruct (N.eqb_spec (2 ^ N.of_nat vars) 0); [lia | reflexivity].
 Qed.
 
@@ -1201,31 +1225,45 @@ Qed.
 
 End SatZbddSat.
 
-(** ZBDD counts in [Saturating<uW>] are exact while [2^vars] is representable *)
+(** ZBDD counts in [Saturating<uW>] (diagrams with fewer than [W] levels): the
+    exact count if it is representable, the out-of-range marker otherwise *)
+Theorem sat_zbdd_saturating : forall s vars r, WF s -> s_kind s = KZbdd ->
+  nlevels s <= vars -> (N.of_nat (nlevels s) < w)%N -> ref_ok s r ->
+  sat_zbdd_sat w s (S (nlevels s)) vars r =
+  Some (sat_fit (2 ^ N.of_nat (vars - nlevels s) * count_levels (nlevels s) (fun_zbdd s r)))%N.
+Proof.
+  intros s vars r H Hk Hv Hlt Hok. unfold sat_zbdd_sat. fold (runz s (S (nlevels s)) r).
+  rewrite (runz_main s H Hk Hlt (S (nlevels s)) r Hok) by lia.
+  rewrite (paths_zbdd_correct s r H Hk Hok). simpl option_map. f_equal.
+  unfold zbdd_shift. destruct (Nat.leb_spec (nlevels s) vars) as [_|X]; [|lia].
+  pose proof (cnt_le (nlevels s) 0 (fun_zbdd s r)) as Hle. fold (count_levels (nlevels s) (fun_zbdd s r)) in Hle.
+  assert (Hq : (2 ^ N.of_nat (nlevels s) < 2 ^ w)%N) by (apply N.pow_lt_mono_r; [reflexivity | exact Hlt]).
+  rewrite sat_shl_spec by lia. f_equal. apply N.mul_comm.
+Qed.
+
+(** ... in particular exact while [2^vars] is representable *)
 Theorem sat_zbdd_saturating_exact : forall s vars r, WF s -> s_kind s = KZbdd ->
   nlevels s <= vars -> (N.of_nat vars < w)%N -> ref_ok s r ->
   sat_zbdd_sat w s (S (nlevels s)) vars r =
   Some (2 ^ N.of_nat (vars - nlevels s) * count_levels (nlevels s) (fun_zbdd s r))%N.
 Proof.
-  intros s vars r H Hk Hv Hlt Hok. unfold sat_zbdd_sat. fold (runz s (S (nlevels s)) r).
-  rewrite (runz_main s H Hk ltac:(lia) (S (nlevels s)) r Hok) by lia.
-  rewrite (paths_zbdd_correct s r H Hk Hok). simpl option_map. f_equal.
-  unfold zbdd_shift. destruct (Nat.leb_spec (nlevels s) vars) as [_|X]; [|lia].
-  simpl n_shl. destruct (N.ltb_spec (N.of_nat (vars - nlevels s)) w) as [_|X]; [|lia].
-  rewrite N.mul_comm. apply N.mod_small.
+  intros s vars r H Hk Hv Hlt Hok. rewrite (sat_zbdd_saturating s vars r H Hk Hv ltac:(lia) Hok).
+  f_equal. unfold sat_fit.
   pose proof (cnt_le (nlevels s) 0 (fun_zbdd s r)) as Hle. fold (count_levels (nlevels s) (fun_zbdd s r)) in Hle.
   assert (Hp : (2 ^ N.of_nat (vars - nlevels s) * 2 ^ N.of_nat (nlevels s) = 2 ^ N.of_nat vars)%N).
   { rewrite <- pow2_add. f_equal. f_equal. lia. }
   assert (Hq : (2 ^ N.of_nat vars < 2 ^ w)%N) by (apply N.pow_lt_mono_r; [reflexivity | exact Hlt]).
-  pose proof (pow2_pos (N.of_nat (vars - nlevels s))). nia.
+  pose proof (pow2_pos (N.of_nat (vars - nlevels s))).
+  destruct (N.ltb_spec (2 ^ N.of_nat (vars - nlevels s) * count_levels (nlevels s) (fun_zbdd s r)) (2 ^ w));
+    [reflexivity | nia].
 Qed.
 
 End Saturating.
 
-(** [Shl] of [Saturating] only checks the shift amount: for [vars >= 64] the
-    ZBDD version ([count << (vars - levels)]) can lose the high bits instead of
-    returning the marker.  The tautology over 3 levels (8 models) with
-    [vars = 64]: exact count 2^64, computed 0. *)
+(** The ZBDD version shifts the path count ([count << (vars - levels)]): the
+    tautology over 3 levels (8 models) with [vars = 64] has 2^64 models, which
+    [Saturating<u64>] reports as the marker; a single path with [vars = 64]
+    (2^61 models) is still exact. *)
 Definition ex_zbdd_taut : snap :=
   mkSnap KZbdd
     (PositiveMap.add 3%positive (mkNode 0 [xe (RN 2); xe (RN 2)] 0 1)
@@ -1236,10 +1274,11 @@ Definition ex_zbdd_taut : snap :=
     [0; 1; 2] [0; 1; 2]
     [(0%N, xe (RN 3))].
 
-Example ex_zbdd_shl_wraps :
+Example ex_zbdd_shl_saturates :
   wf_full_b ex_zbdd_taut = true /\
   sat_zbdd ex_zbdd_taut 4 64 (RN 3) = Some (2 ^ 64)%N /\
-  sat_zbdd_sat 64 ex_zbdd_taut 4 64 (RN 3) = Some 0%N /\
+  sat_zbdd_sat 64 ex_zbdd_taut 4 64 (RN 3) = Some (sat_max 64) /\
+  sat_zbdd_sat 64 ex_zbdd_taut 4 60 (RN 3) = Some (2 ^ 60)%N /\
   sat_u64 64 (2 ^ 64) = sat_max 64.
 Proof. vm_compute. repeat split; reflexivity. Qed.
 
